@@ -531,7 +531,7 @@ func c01b(c *Ctx) {
 			why = fmt.Sprintf("createPostLogicChunk(%s, _, %s) under %v; expected (receiver, _, index) exactly when !isLastStatement(index)", c.term(split, args[0]), c.term(split, args[2]), must)
 			// and on the other branch nothing is dropped: only when last
 			d := c.PC(split).canonOf(c.PC(split).At(call.Block()))
-			if ok && !dnfEquiv(d, mkDNF([]string{"-"+isLastLit})) {
+			if ok && !dnfEquiv(d, mkDNF([]string{"-" + isLastLit})) {
 				ok = false
 				why = "post-logic chunk created under " + d.String() + ", expected exactly !isLastStatement(index)"
 			}
